@@ -296,7 +296,6 @@ func c03implicit(c *core.Check) {
 		pos  token.Pos
 	}
 	var blocks []blk
-	idRe := regexp.MustCompile(`\b(fields|f\.Arguments|f\.Throws)\b`)
 	for _, f := range pk.Syntax {
 		for _, d := range f.Decls {
 			fd, ok := d.(*ast.FuncDecl)
@@ -318,7 +317,12 @@ func c03implicit(c *core.Check) {
 					sb.WriteString(";")
 				}
 				t := strings.Join(strings.Fields(sb.String()), " ")
-				t = idRe.ReplaceAllString(t, "LIST")
+				// abstract the carried list: whatever len(…) is applied to inside the block
+				if m := regexp.MustCompile(`len\(([A-Za-z_][A-Za-z0-9_.]*)\)`).FindStringSubmatch(t); m != nil {
+					t = regexp.MustCompile(`(^|[^A-Za-z0-9_.])`+regexp.QuoteMeta(m[1])+`($|[^A-Za-z0-9_])`).ReplaceAllString(t, "${1}LIST${2}")
+				}
+				// and the field variable: the base of `.ID == NOTSET`
+				t = strings.ReplaceAll(t, strings.TrimSuffix(rules.ExprString(be.X), ".ID")+".ID", "FIELD.ID")
 				blocks = append(blocks, blk{fd.Name.Name, t, is.Pos()})
 				return true
 			})
@@ -340,9 +344,15 @@ func c03implicit(c *core.Check) {
 		ok := false
 		ast.Inspect(fd.Body, func(nd ast.Node) bool {
 			is, isIf := nd.(*ast.IfStmt)
-			if !isIf || rules.ExprString(is.Cond) != "len(values) == 0" {
+			if !isIf {
 				return true
 			}
+			// `len(X) == 0` for the list X of values collected so far
+			cond := strings.ReplaceAll(rules.ExprString(is.Cond), " ", "")
+			if !strings.HasPrefix(cond, "len(") || !strings.HasSuffix(cond, ")==0") {
+				return true
+			}
+			list := strings.TrimSuffix(strings.TrimPrefix(cond, "len("), ")==0")
 			thenT := ""
 			for _, s := range is.Body.List {
 				thenT += nodeText(c, s)
@@ -353,7 +363,7 @@ func c03implicit(c *core.Check) {
 					elseT += nodeText(c, s)
 				}
 			}
-			if strings.Contains(thenT, ".Value = 0") && strings.Contains(strings.Join(strings.Fields(elseT), " "), "values[len(values)-1].Value + 1") {
+			if strings.Contains(thenT, ".Value = 0") && strings.Contains(strings.Join(strings.Fields(elseT), " "), list+"[len("+list+")-1].Value + 1") {
 				ok = true
 			}
 			return true
@@ -607,7 +617,7 @@ func c03annotations(c *core.Check) {
 	// does parseDefinition still dereference the cursor?
 	deref := false
 	ast.Inspect(pd.Body, func(n ast.Node) bool {
-		if st, ok := n.(*ast.StarExpr); ok && rules.ExprString(st.X) == "p.Annotations" {
+		if st, ok := n.(*ast.StarExpr); ok && strings.HasSuffix(rules.ExprString(st.X), ".Annotations") && !strings.Contains(strings.TrimSuffix(rules.ExprString(st.X), ".Annotations"), ".") {
 			deref = true
 		}
 		return true
@@ -639,7 +649,7 @@ func c03annotations(c *core.Check) {
 				return false
 			}
 			for _, l := range as.Lhs {
-				if rules.ExprString(l) == "p.Annotations" {
+				if t := rules.ExprString(l); strings.HasSuffix(t, ".Annotations") && !strings.Contains(strings.TrimSuffix(t, ".Annotations"), ".") {
 					return true
 				}
 			}
